@@ -9,6 +9,8 @@
 #include "common/rxh.hpp"
 #include "common/sched.h"
 #include <pthread.h>
+#include <map>
+#include <tuple>
 #include <sys/wait.h>
 
 using namespace rxh;
@@ -30,14 +32,15 @@ extern "C" {
 void* __real_malloc(size_t); void __real_free(void*); int __real_posix_memalign(void**, size_t, size_t);
 void* __real__Znwm(size_t); void __real__ZdlPv(void*);
 void* __real_mmap(void*, size_t, int, int, int, off_t); int __real_munmap(void*, size_t); int __real_mprotect(void*, size_t, int);
-void* __wrap_malloc(size_t n) { sch_point(t_tid); return __real_malloc(n); }
-void __wrap_free(void* p) { sch_point(t_tid); __real_free(p); }
-int __wrap_posix_memalign(void** o, size_t a, size_t n) { sch_point(t_tid); return __real_posix_memalign(o, a, n); }
-void* __wrap__Znwm(size_t n) { sch_point(t_tid); return __real__Znwm(n); }
-void __wrap__ZdlPv(void* p) { sch_point(t_tid); __real__ZdlPv(p); }
-void* __wrap_mmap(void* a, size_t n, int p, int f, int fd, off_t o) { sch_point(t_tid); return __real_mmap(a, n, p, f, fd, o); }
-int __wrap_munmap(void* a, size_t n) { sch_point(t_tid); return __real_munmap(a, n); }
-int __wrap_mprotect(void* a, size_t n, int p) { sch_point(t_tid); return __real_mprotect(a, n, p); }
+#define SITE ((unsigned)(uintptr_t)__builtin_return_address(0))
+void* __wrap_malloc(size_t n) { sch_point_ks(t_tid, 0, SITE); return __real_malloc(n); }
+void __wrap_free(void* p) { sch_point_ks(t_tid, 0, SITE); __real_free(p); }
+int __wrap_posix_memalign(void** o, size_t a, size_t n) { sch_point_ks(t_tid, 0, SITE); return __real_posix_memalign(o, a, n); }
+void* __wrap__Znwm(size_t n) { sch_point_ks(t_tid, 0, SITE); return __real__Znwm(n); }
+void __wrap__ZdlPv(void* p) { sch_point_ks(t_tid, 0, SITE); __real__ZdlPv(p); }
+void* __wrap_mmap(void* a, size_t n, int p, int f, int fd, off_t o) { sch_point_ks(t_tid, 0, SITE); return __real_mmap(a, n, p, f & ~MAP_HUGETLB, fd, o); }   // no huge pages in the sandbox: LARGE_PAGES classes get ordinary pages
+int __wrap_munmap(void* a, size_t n) { sch_point_ks(t_tid, 0, SITE); return __real_munmap(a, n); }
+int __wrap_mprotect(void* a, size_t n, int p) { sch_point_ks(t_tid, 0, SITE); return __real_mprotect(a, n, p); }
 }
 
 // ---- shared fixture
@@ -50,14 +53,15 @@ static randomx::DatasetInitFunc* g_real_init[2];
 static const uint8_t CANARY = 0x5C;
 
 template<int W> static void init_wrapper(randomx_cache* c, uint8_t* out, uint32_t a, uint32_t b) {
-	sch_point(t_tid);
+	sch_point_k(t_tid, 1);
 	if (W == 1) { __tsan_read_range(c->memory, randomx::CacheSize); __tsan_write_range(out, 64ul * (b - a)); }   // effects of the emitted code, declared to the race detector
 	g_real_init[W](c, out, a, b);
-	sch_point(t_tid);
+	sch_point_k(t_tid, 1);
 }
 
 struct OpT { int kind; int a, b, c; };   // 0 create_vm(flags a)  1 hash(input a)  2 destroy_vm  3 init_dataset(cache a, start b, count c)
-                                         // 4 own: alloc+init cache (key a)  5 own: create vm  6 own: hash(a)  7 own: re-key (key a) + set_cache  8 own: destroy+release
+                                         // 4 own: alloc+init cache (key a, extra cache flags b)  5 own: create vm  6 own: hash(a)  7 own: re-key (key a) + set_cache  8 own: destroy+release
+                                         // 9 randomx_get_flags()  10 own: alloc dataset + init it from the own cache + create a fast JIT VM (replaces 5)
 struct ThreadProg { std::vector<OpT> ops; };
 struct Scenario { std::string name; std::vector<ThreadProg> th; };
 static const char* INPUTS[3] = { "This is a test", "", "Lorem ipsum dolor sit amet" };
@@ -69,9 +73,9 @@ struct Ctx { const Scenario* sc; int tid; ThreadOut out; bool sched; };
 static void* body(void* p) {
 	Ctx* c = (Ctx*)p; t_tid = c->sched ? c->tid : -1;
 	if (c->sched) sch_thread_begin(c->tid);
-	randomx_vm* vm = nullptr; randomx_cache* own = nullptr; int vmflags = 0;
+	randomx_vm* vm = nullptr; randomx_cache* own = nullptr; randomx_dataset* ownds = nullptr; int vmflags = 0;
 	for (const OpT& o : c->sc->th[c->tid].ops) {
-		if (c->sched) sch_point(c->tid);
+		if (c->sched) sch_point_k(c->tid, 1);
 		switch (o.kind) {
 		case 0: vmflags = o.a; vm = randomx_create_vm((randomx_flags)o.a, (o.a & RANDOMX_FLAG_FULL_MEM) ? nullptr : g_cache[1], (o.a & RANDOMX_FLAG_FULL_MEM) ? g_ds : nullptr); if (!vm) c->out.failed = true; break;
 		case 1: case 6: if (vm) { std::array<uint8_t, 32> d;
@@ -79,17 +83,20 @@ static void* body(void* p) {
 			randomx_calculate_hash(vm, INPUTS[o.a], strlen(INPUTS[o.a]), d.data()); c->out.digests.push_back(d); } break;
 		case 2: if (vm) randomx_destroy_vm(vm); vm = nullptr; break;
 		case 3: randomx_init_dataset(g_target, g_cache[o.a], (unsigned long)o.b, (unsigned long)o.c); break;
-		case 4: own = randomx_alloc_cache(RANDOMX_FLAG_JIT); if (own) randomx_init_cache(own, OWNKEYS[o.a], strlen(OWNKEYS[o.a])); else c->out.failed = true; break;
+		case 4: own = randomx_alloc_cache((randomx_flags)(RANDOMX_FLAG_JIT | o.b)); if (own) randomx_init_cache(own, OWNKEYS[o.a], strlen(OWNKEYS[o.a])); else c->out.failed = true; break;
 		case 5: vmflags = RANDOMX_FLAG_JIT; if (own) vm = randomx_create_vm(RANDOMX_FLAG_JIT, own, nullptr); break;
 		case 7: if (own && vm) { randomx_init_cache(own, OWNKEYS[o.a], strlen(OWNKEYS[o.a])); randomx_vm_set_cache(vm, own); } break;
-		case 8: if (vm) randomx_destroy_vm(vm); vm = nullptr; if (own) randomx_release_cache(own); own = nullptr; break;
+		case 8: if (vm) randomx_destroy_vm(vm); vm = nullptr; if (ownds) randomx_release_dataset(ownds); ownds = nullptr; if (own) randomx_release_cache(own); own = nullptr; break;
+		case 9: { volatile int f = (int)randomx_get_flags(); (void)f; break; }
+		case 10: vmflags = RANDOMX_FLAG_JIT | RANDOMX_FLAG_FULL_MEM; if (own) { ownds = randomx_alloc_dataset(RANDOMX_FLAG_DEFAULT); if (ownds) { randomx_init_dataset(ownds, own, 0, randomx_dataset_item_count()); vm = randomx_create_vm((randomx_flags)vmflags, nullptr, ownds); } else c->out.failed = true; } break;
 		}
 	}
 	if (c->sched) sch_thread_end(c->tid);
 	return nullptr;
 }
 
-struct RunResult { int ntrace; sch_pt trace[512]; int tsan; int mismatch; int diverged; char what[200]; };
+struct RunHdr { int ntrace; int tsan; int mismatch; int diverged; int truncated; char what[200]; };
+struct RunResult : RunHdr { std::vector<sch_pt> trace; RunResult() { clear(); } void clear() { memset(static_cast<RunHdr*>(this), 0, sizeof(RunHdr)); trace.clear(); } };
 
 // sequential reference: thread programs one after another
 // Runs in a forked child: whatever the library memoises in the shared objects during the reference run must not be
@@ -119,7 +126,7 @@ static void reference(const Scenario& sc, std::vector<ThreadOut>& ref, std::vect
 }
 
 static void run_once(const Scenario& sc, const std::vector<int>& prefix, bool sched, const std::vector<ThreadOut>& ref, const std::vector<uint8_t>& refds, RunResult& rr) {
-	memset(&rr, 0, sizeof rr); memset(g_target->memory, CANARY, randomx::DatasetSize); g_tsan_reports = 0;
+	rr.clear(); memset(g_target->memory, CANARY, randomx::DatasetSize); g_tsan_reports = 0;
 	int n = (int)sc.th.size(); std::vector<Ctx> ctx; for (int t = 0; t < n; ++t) ctx.push_back(Ctx{ &sc, t, {}, sched });
 	if (sched) sch_init(n, prefix.data(), (int)prefix.size()); else sch_disable();
 	std::vector<pthread_t> th(n);
@@ -132,7 +139,7 @@ static void run_once(const Scenario& sc, const std::vector<int>& prefix, bool sc
 	}
 	if (memcmp(g_target->memory, refds.data(), randomx::DatasetSize)) { rr.mismatch = 1; size_t i = 0; while (g_target->memory[i] == refds[i]) ++i; snprintf(rr.what, sizeof rr.what, "dataset differs from the sequential execution at item %zu", i / 64); }
 	rr.tsan = g_tsan_reports; rr.diverged = sched ? sch_diverged() : 0;
-	if (sched) { const sch_pt* tr; int k = sch_trace(&tr); rr.ntrace = std::min(k, 512); memcpy(rr.trace, tr, sizeof(sch_pt) * (size_t)rr.ntrace); }
+	if (sched) { const sch_pt* tr; int k = sch_trace(&tr); rr.ntrace = std::min(k, (int)SCH_MAXP); rr.truncated = k >= (int)SCH_MAXP; rr.trace.assign(tr, tr + rr.ntrace); }
 }
 
 // one schedule in a forked child; TSan's report text goes to a file
@@ -144,13 +151,15 @@ static bool run_child(const Scenario& sc, const std::vector<int>& prefix, bool s
 	if (pid == 0) {
 		close(pfd[0]); int fd = open(path, O_WRONLY | O_CREAT | O_TRUNC, 0600); if (fd >= 0) { dup2(fd, 2); close(fd); }
 		RunResult r; run_once(sc, prefix, sched, ref, refds, r);
-		if (write(pfd[1], &r, sizeof r)) {} _exit(0);
+		if (write(pfd[1], static_cast<RunHdr*>(&r), sizeof(RunHdr))) {} size_t nb = sizeof(sch_pt) * r.trace.size(), off = 0; while (off < nb) { ssize_t k = write(pfd[1], (const char*)r.trace.data() + off, nb - off); if (k <= 0) break; off += (size_t)k; } _exit(0);
 	}
-	close(pfd[1]); size_t got = 0; while (got < sizeof rr) { ssize_t k = read(pfd[0], (char*)&rr + got, sizeof rr - got); if (k <= 0) break; got += (size_t)k; }
+	close(pfd[1]); rr.clear(); size_t got = 0; auto rd = [&](void* dst, size_t n) { size_t g = 0; while (g < n) { ssize_t k = read(pfd[0], (char*)dst + g, n - g); if (k <= 0) break; g += (size_t)k; } return g; };
+	got = rd(static_cast<RunHdr*>(&rr), sizeof(RunHdr)); bool full = got == sizeof(RunHdr);
+	if (full && rr.ntrace > 0 && rr.ntrace <= (int)SCH_MAXP) { rr.trace.resize((size_t)rr.ntrace); full = rd(rr.trace.data(), sizeof(sch_pt) * (size_t)rr.ntrace) == sizeof(sch_pt) * (size_t)rr.ntrace; }
 	close(pfd[0]); int st; waitpid(pid, &st, 0);
 	if (tsan_text) { tsan_text->clear(); FILE* f = fopen(path, "r"); if (f) { char line[300]; int n = 0; while (fgets(line, sizeof line, f) && n < 40) { if (strstr(line, "WARNING: ThreadSanitizer") || strstr(line, "Location is") || strstr(line, " #0 ") || strstr(line, "Write of size") || strstr(line, "Read of size") || strstr(line, "Previous")) { *tsan_text += line; ++n; } } fclose(f); } }
 	unlink(path);
-	return got == sizeof rr && WIFEXITED(st) && WEXITSTATUS(st) == 0;
+	return full && WIFEXITED(st) && WEXITSTATUS(st) == 0;
 }
 
 static std::vector<Scenario> scenarios(bool th) {
@@ -182,6 +191,16 @@ static std::vector<Scenario> scenarios(bool th) {
 	v.push_back({ "O(own cache lifecycle) || V(jit-hard-light)", { own, V(RANDOMX_FLAG_JIT | RANDOMX_FLAG_HARD_AES, 0) } });
 	v.push_back({ "O || O", { own, own } });
 	v.push_back({ "O || D[0,5) compiled", { own, { { { 3, 1, 0, 5 } } } } });
+	// rarely used paths next to each other: other Argon2 implementations, own datasets, LARGE_PAGES classes, randomx_get_flags
+	for (int ar : { (int)RANDOMX_FLAG_ARGON2_AVX2, (int)RANDOMX_FLAG_ARGON2_SSSE3 }) {
+		ThreadProg oa{ { { 9, 0, 0, 0 }, { 4, 0, ar, 0 }, { 5, 0, 0, 0 }, { 6, 0, 0, 0 }, { 8, 0, 0, 0 } } }, ob{ { { 4, 1, ar, 0 }, { 9, 0, 0, 0 }, { 5, 0, 0, 0 }, { 6, 1, 0, 0 }, { 8, 0, 0, 0 } } };
+		v.push_back({ std::string("O(") + (ar == (int)RANDOMX_FLAG_ARGON2_AVX2 ? "avx2" : "ssse3") + ",get_flags) || O(same implementation, other key)", { oa, ob } });
+	}
+	{ ThreadProg od{ { { 4, 0, 0, 0 }, { 10, 0, 0, 0 }, { 6, 0, 0, 0 }, { 8, 0, 0, 0 } } };
+	  v.push_back({ "OD(own cache + own dataset + fast VM) || V(jit-soft-fast)", { od, V(RANDOMX_FLAG_JIT | RANDOMX_FLAG_FULL_MEM, 1) } });
+	  v.push_back({ "OD || OD", { od, od } }); }
+	v.push_back({ "V(jit-hard-light+LARGE_PAGES) || V(sec-soft-light+LARGE_PAGES)", { V(RANDOMX_FLAG_JIT | RANDOMX_FLAG_HARD_AES | RANDOMX_FLAG_LARGE_PAGES, 0), V(RANDOMX_FLAG_JIT | RANDOMX_FLAG_SECURE | RANDOMX_FLAG_LARGE_PAGES, 1) } });
+	v.push_back({ "V(int-soft-fast+LARGE_PAGES) || V(int-soft-fast+LARGE_PAGES)", { V(RANDOMX_FLAG_FULL_MEM | RANDOMX_FLAG_LARGE_PAGES, 0), V(RANDOMX_FLAG_FULL_MEM | RANDOMX_FLAG_LARGE_PAGES, 2) } });
 	if (th) v.push_back({ "V(int-hard-light) || V(jit-soft-fast) || V(sec-hard-light)", { V(RANDOMX_FLAG_HARD_AES, 0), V(RANDOMX_FLAG_FULL_MEM | RANDOMX_FLAG_JIT, 1), V(RANDOMX_FLAG_JIT | RANDOMX_FLAG_SECURE | RANDOMX_FLAG_HARD_AES, 2) } });
 	return v;
 }
@@ -193,7 +212,7 @@ int main(int argc, char** argv) {
 	if (!args.get("as").empty()) args.prop = args.get("as");   // the dataset scenarios also serve C08 (thread assignment of init_dataset calls)
 	const bool th = args.thorough();
 	const int bound = atoi(args.get("bound", th ? "3" : "2").c_str());
-	const long cap = atol(args.get("cap", th ? "3000" : "500").c_str());    // schedules per scenario (reported if hit)
+	const long cap = atol(args.get("cap", th ? "3000" : "300").c_str());    // schedules per scenario (reported if hit)
 	std::vector<Scenario> SC = scenarios(th);
 	if (args.get("only-dataset") == "1") { std::vector<Scenario> d; for (auto& x : SC) if (x.name.rfind("D[", 0) == 0) d.push_back(x); SC = d; }
 	auto fixture = [&]() {
@@ -211,7 +230,8 @@ int main(int argc, char** argv) {
 		std::vector<ThreadOut> ref; std::vector<uint8_t> refds; reference(*sc, ref, refds);
 		RunResult a, b; std::string text; bool sched = r.at("scheduled").b;
 		if (!run_child(*sc, pre, sched, ref, refds, a, &text)) { printf("replay: execution terminated abnormally\n"); return 1; }
-		if (sched) { run_child(*sc, pre, true, ref, refds, b, nullptr); if (a.ntrace != b.ntrace || memcmp(a.trace, b.trace, sizeof(sch_pt) * (size_t)a.ntrace) || a.diverged) { printf("replay: schedule is not reproducible (harness error)\n"); return 2; } }
+		if (!sched) for (int tries = 0; tries < 200 && !(a.tsan || a.mismatch); ++tries) { if (!run_child(*sc, pre, false, ref, refds, a, &text)) { printf("replay: execution terminated abnormally\n"); return 1; } }   // a free-running execution is not deterministic: repeat
+		if (sched) { run_child(*sc, pre, true, ref, refds, b, nullptr); if (a.ntrace != b.ntrace || memcmp(a.trace.data(), b.trace.data(), sizeof(sch_pt) * (size_t)a.ntrace) || a.diverged) { printf("replay: schedule is not reproducible (harness error)\n"); return 2; } }
 		printf("replay %s: tsan reports %d, result mismatch %d %s\n%s", sc->name.c_str(), a.tsan, a.mismatch, a.what, text.c_str());
 		return (a.tsan || a.mismatch) ? 1 : 0;
 	}
@@ -229,17 +249,25 @@ int main(int argc, char** argv) {
 			R.viol.push_back(v);
 		};
 		// iterative context bounding: all schedules with at most b preemptions, b = 0..bound
+		int phase = 0;   // 0: preemptions only at operation-level points (API call boundaries, datasetInit calls); 1: at every point (also inside operations: allocation / mapping calls)
 		std::function<void(const std::vector<int>&, int)> explore = [&](const std::vector<int>& prefix, int b) {
 			if (capped || R.viol.size() >= 2) return;
 			if (runs >= cap) { capped = true; return; }
 			RunResult rr; std::string text; ++runs;
 			bool ok = run_child(sc, prefix, true, ref, refds, rr, &text);
 			R.n["schedules"]++; R.n["scheduling_points"] += ok ? rr.ntrace : 0;
-			if (!ok) { RunResult z; memset(&z, 0, sizeof z); z.mismatch = 1; snprintf(z.what, sizeof z.what, "execution terminated abnormally"); report(prefix, true, z, text); return; }
+			if (!ok) { RunResult z; z.mismatch = 1; snprintf(z.what, sizeof z.what, "execution terminated abnormally"); report(prefix, true, z, text); return; }
+			if (rr.truncated) { R.n["executions_with_truncated_trace"]++; R.incomplete = true; }
 			if (rr.diverged) { fprintf(stderr, "c14: schedule prefix diverged on replay (nondeterminism the harness does not own) in %s\n", sc.name.c_str()); _exit(3); }
 			std::vector<int> full; for (int i = 0; i < rr.ntrace; ++i) full.push_back(rr.trace[i].chosen);
 			outcomes.insert(std::to_string(rr.tsan > 0) + "/" + std::to_string(rr.mismatch) + "/" + std::to_string(rr.ntrace));
 			if (rr.tsan || rr.mismatch) { report(full, true, rr, text); return; }
+			// candidate points inside operations: per (thread, operation, call site) only the first two and the last dynamic occurrence - points reached again and
+			// again from one call site inside one operation (allocation in a loop) are represented by those; operation-level points are always candidates
+			std::vector<char> cand((size_t)rr.ntrace, 1);
+			{ std::map<std::tuple<int, int, unsigned>, std::vector<int>> occ; int opidx[SCH_MAXT] = { 0 };
+			  for (int i = 0; i < rr.ntrace; ++i) { const sch_pt& q = rr.trace[i]; if (q.running < 0) continue; if (q.kind == 1) { ++opidx[q.running]; continue; } occ[std::make_tuple(q.running, opidx[q.running], q.site)].push_back(i); }
+			  for (auto& kv : occ) { auto& v = kv.second; for (size_t k = 2; k + 1 < v.size(); ++k) cand[(size_t)v[k]] = 0; } }
 			// preemptions already used by this execution up to point i
 			int used = 0;
 			for (int i = 0; i < rr.ntrace; ++i) {
@@ -249,6 +277,8 @@ int main(int argc, char** argv) {
 						if (alt == p.chosen || !(p.enabled & (1u << alt))) continue;
 						int cost = used + ((p.running >= 0 && alt != p.running) ? 1 : 0);
 						if (cost > b) continue;
+						if (phase == 0 && p.kind != 1 && p.running >= 0 && alt != p.running) continue;
+						if (phase == 1 && !cand[(size_t)i] && p.running >= 0 && alt != p.running) continue;
 						std::vector<int> np(full.begin(), full.begin() + i); np.push_back(alt);
 						explore(np, b);
 					}
@@ -256,10 +286,17 @@ int main(int argc, char** argv) {
 				if (p.running >= 0 && p.chosen != p.running) ++used;
 			}
 		};
-		for (int b = 0; b <= bound && !capped && R.viol.empty(); ++b) { long before = runs; explore({}, b); (void)before; if (!capped && R.viol.empty()) completed_bound = b; }
-		R.mx["preemption_bound_completed"] = (uint64_t)std::max(completed_bound, 0); if (capped) { R.n["scenarios_capped"]++; R.incomplete = true; }
+		// phase 0 first (few points, deeper bound), then phase 1 with its own budget: when a cap cuts the search short it cuts the least valuable part
+		int completed_op = -1; long runs_op = 0; bool capped_op = false;
+		std::string per_bound;
+		phase = 0; for (int b = 0; b <= bound + 1 && !capped && R.viol.empty(); ++b) { long before = runs; explore({}, b); if (!capped && R.viol.empty()) completed_op = b; per_bound += (b ? "/" : "") + std::to_string(runs - before); }
+		runs_op = runs; capped_op = capped; runs = 0; capped = false;
+		phase = 1; for (int b = 0; b <= bound && !capped && R.viol.empty(); ++b) { explore({}, b); if (!capped && R.viol.empty()) completed_bound = b; }
+		runs += runs_op;
+		R.mx["preemption_bound_completed"] = (uint64_t)std::max(completed_bound, 0); R.mx["op_level_preemption_bound_completed"] = (uint64_t)std::max(completed_op, 0);
+		if (capped || capped_op) { R.n["scenarios_capped"]++; R.incomplete = true; }
 		R.n["scenarios"]++; R.n["distinct_outcomes"] += outcomes.size();
-		R.tags.insert(sc.name + ": " + std::to_string(runs) + " schedules, bound completed " + std::to_string(completed_bound) + (capped ? " (cap hit)" : ""));
+		R.tags.insert(sc.name + ": " + std::to_string(runs) + " schedules; operation-level preemptions: bound completed " + std::to_string(completed_op) + " [" + per_bound + " schedules per bound]" + (capped_op ? " (cap hit)" : "") + "; all points: bound completed " + std::to_string(completed_bound) + (capped ? " (cap hit)" : ""));
 		// free-running pass (sampling; never the deciding step)
 		if (R.viol.empty()) for (int rep = 0; rep < (th ? 100 : 20); ++rep) { RunResult rr; std::string text; bool ok = run_child(sc, {}, false, ref, refds, rr, &text); R.n["free_running_runs"]++; if (!ok || rr.tsan || rr.mismatch) { if (!ok) { rr.mismatch = 1; snprintf(rr.what, sizeof rr.what, "execution terminated abnormally"); } report({}, false, rr, text); break; } }
 		if (shard < 2) R.sample(vf::Json::obj().set("scenario", sc.name).set("threads", (int)sc.th.size()).set("schedule_example", "thread ids chosen at each scheduling point, e.g. [0,0,0,1,1,0,...]"), 2);
@@ -270,7 +307,7 @@ int main(int argc, char** argv) {
 		.set("evaluations", (unsigned long long)total.n["schedules"]).set("distinct_nontrivial", (unsigned long long)total.n["scenarios"])
 		.set("schedules", (unsigned long long)total.n["schedules"]).set("preemption_bound", bound).set("exhaustive", !total.incomplete)
 		.set("free_running_sampled_runs", (unsigned long long)total.n["free_running_runs"])
-		.set("rule", std::string("profile ") + RX_PROFILE + ", TSan build: scenarios = pairs of V(f,X)=create_vm/hash/destroy over the shared cache or dataset (" + (th ? "all 144 ordered pairs of the 12 flag sets" : "each flag set with itself and with a ring neighbour") + "), init_dataset on disjoint blocks of partitions (compiled and interpreted initialiser; <4-item, remainder and tail blocks side by side), own-object lifecycles next to shared use; for each scenario every schedule with at most the stated number of preemptions (scheduling points: API calls, allocation/mapping calls, datasetInit calls), each executed on the implementation in a fresh process; oracle = sequential results + no TSan report (hand-offs invisible to TSan); 'states' counts scheduling points visited, 'transitions' the choices taken");
+		.set("rule", std::string("profile ") + RX_PROFILE + ", TSan build: scenarios = pairs of V(f,X)=create_vm/hash/destroy over the shared cache or dataset (" + (th ? "all 144 ordered pairs of the 12 flag sets" : "each flag set with itself and with a ring neighbour") + "), init_dataset on disjoint blocks of partitions (compiled and interpreted initialiser; <4-item, remainder and tail blocks side by side), own-object lifecycles next to shared use (own caches with each Argon2 implementation, own datasets with fast VMs, randomx_get_flags), LARGE_PAGES VM classes (ordinary pages); for each scenario first every schedule with at most bound+1 preemptions placed at operation-level points (API call boundaries, datasetInit calls), then every schedule with at most the stated number of preemptions at operation-level points and at the allocation/mapping calls inside operations (per thread, operation and call site: the first two and the last dynamic occurrence), each phase with its own schedule budget, each executed on the implementation in a fresh process; oracle = sequential results + no TSan report (hand-offs invisible to TSan); 'states' counts scheduling points visited, 'transitions' the choices taken");
 	ev.assumptions = { "accesses made by JIT-emitted code and static assembly are visible to the race detector only through the ranges declared at the call boundary", "weak-memory reorderings are not modelled (irrelevant for read-only sharing, which the absence of conflicting pairs establishes)", "TSan's allocator decides block placement; address reuse is not an explored dimension here" };
 	return vf::finish(args, total, ev, true, true);
 }
